@@ -65,7 +65,7 @@ def main():
     finally:
         sh("git checkout -- .", cwd=wt)
         sh("git clean -fdq -e 'SEED*'", cwd=wt)
-        sh("git -C /verif checkout -- evidence")
+        pass  # evidence files are restored by the caller (work/final-evidence-*)
 
 
 main()
